@@ -156,6 +156,10 @@ type rzStore struct {
 	// one-shot: after the k-th item the next After yielded (or at the end of its iteration when it has fewer), run fire()
 	// on the iterating goroutine — store pressure from another session in the middle of a replay
 	afterHook *rzAfterHook
+	// one-shot: the next Append fails (an EventStore is an I/O boundary: a database/disk/quota backed one can fail);
+	// nothing is recorded as ground truth, the inner store is not called
+	failAppend bool
+	failed     bool
 }
 
 type rzAfterHook struct {
@@ -191,6 +195,11 @@ func (s *rzStore) Append(ctx context.Context, sess, stream string, data []byte) 
 		<-p
 	}
 	s.h.mu.Lock()
+	if s.failAppend {
+		s.failAppend, s.failed = false, true
+		s.h.mu.Unlock()
+		return errors.New("verif: event store append failed")
+	}
 	s.h.sawStream(sess, stream)
 	s.h.appends = append(s.h.appends, rzAppend{sess: sess, stream: stream, data: append([]byte(nil), data...)})
 	s.h.mu.Unlock()
@@ -312,6 +321,7 @@ type rzHarness struct {
 	yieldGate chan struct{} // ... on this gate
 	yielded   bool          // a goroutine is parked at the site (the site is instrumented in this tree)
 	lastNote  string        // coverage note of the last op (read by the generator for its tags)
+	callKind  map[string]string // tag of a server->client call -> C (sampling) | P (ping) | R (roots/list)
 }
 
 func (h *rzHarness) sawStream(sess, stream string) {
@@ -403,6 +413,8 @@ func (h *rzHarness) payload(sess string, data []byte) string {
 		return "F." + m.Params.Meta.Verif
 	case m.Method == "sampling/createMessage":
 		return "C." + m.Params.SystemPrompt
+	case (m.Method == "ping" || m.Method == "roots/list") && m.Params.Meta.Verif != "":
+		return "C." + m.Params.Meta.Verif // server->client requests issued by `emit … P|R …`
 	case m.Method == "notifications/cancelled":
 		if tag, ok := h.callTags[sess+"#"+string(m.Params.RequestID)]; ok {
 			return "X." + tag
@@ -480,10 +492,17 @@ func (h *rzHarness) noteServerCall(sess string, data []byte) {
 		Method string          `json:"method"`
 		Params struct {
 			SystemPrompt string `json:"systemPrompt"`
+			Meta         struct {
+				Verif string `json:"verif"`
+			} `json:"_meta"`
 		} `json:"params"`
 	}
-	if json.Unmarshal(data, &m) == nil && m.Method == "sampling/createMessage" && len(m.ID) > 0 {
-		h.srvCalls[m.Params.SystemPrompt] = string(m.ID)
+	if json.Unmarshal(data, &m) == nil && len(m.ID) > 0 {
+		if m.Method == "sampling/createMessage" {
+			h.srvCalls[m.Params.SystemPrompt] = string(m.ID)
+		} else if (m.Method == "ping" || m.Method == "roots/list") && m.Params.Meta.Verif != "" {
+			h.srvCalls[m.Params.Meta.Verif] = string(m.ID)
+		}
 	}
 }
 
@@ -967,6 +986,25 @@ func (h *rzHarness) apply(toks []string) (obs string) {
 		}
 	}()
 	kv := rzKV(toks)
+	if kv["af"] == "1" && (toks[0] == "emit" || toks[0] == "resp") {
+		// `emit … af=1` / `resp … af=1`: the EventStore.Append of this write fails (if the write gets that far)
+		toks = toks[:len(toks)-1]
+		if h.store != nil {
+			h.mu.Lock()
+			h.store.failAppend, h.store.failed = true, false
+			h.mu.Unlock()
+			defer func() {
+				h.mu.Lock()
+				h.store.failAppend = false
+				if h.store.failed {
+					h.lastNote = "append-failed"
+				} else {
+					h.lastNote = "append-not-reached"
+				}
+				h.mu.Unlock()
+			}()
+		}
+	}
 	switch toks[0] {
 	case "init": // init <sess> id=<n> v=<a|b|c> b=<budget>
 		s := &rzSess{name: toks[1], streams: map[string]string{}}
@@ -1104,6 +1142,14 @@ func (h *rzHarness) apply(toks []string) (obs string) {
 			return "nocall"
 		}
 		body := fmt.Sprintf(`{"jsonrpc":"2.0","id":%s,"result":{"role":"assistant","model":"m","content":{"type":"text","text":"ok"}}}`, id)
+		h.mu.Lock()
+		switch h.callKind[toks[2]] {
+		case "P":
+			body = fmt.Sprintf(`{"jsonrpc":"2.0","id":%s,"result":{}}`, id)
+		case "R":
+			body = fmt.Sprintf(`{"jsonrpc":"2.0","id":%s,"result":{"roots":[]}}`, id)
+		}
+		h.mu.Unlock()
 		h.serve(rzReq{method: "POST", sess: toks[1], body: body, budget: -1})
 		synctest.Wait()
 		return h.observe(toks[1])
@@ -1243,6 +1289,10 @@ func (h *rzHarness) emit(c *rzCall, kind string, ctx context.Context, tag string
 			id := strconv.Itoa(h.ncalls[sess])
 			h.callTags[sess+"#"+id] = tag
 			h.callIDs[tag] = id
+			if h.callKind == nil {
+				h.callKind = map[string]string{}
+			}
+			h.callKind[tag] = kind
 		}
 		h.callCancel[tag] = cancel
 		h.mu.Unlock()
@@ -1260,6 +1310,11 @@ func (h *rzHarness) emit(c *rzCall, kind string, ctx context.Context, tag string
 			err = c.ss.NotifyProgress(ctx, &ProgressNotificationParams{ProgressToken: "p", Message: tag, Progress: 1})
 		} else if kind == "L" {
 			err = c.ss.Log(ctx, &LoggingMessageParams{Level: "info", Logger: tag, Data: "x"})
+		} else if kind == "P" {
+			// a server-initiated ping (what ServerOptions.KeepAlive sends): a server->client REQUEST on the stream
+			err = c.ss.Ping(ctx, &PingParams{Meta: Meta{"verif": tag}})
+		} else if kind == "R" {
+			_, err = c.ss.ListRoots(ctx, &ListRootsParams{Meta: Meta{"verif": tag}})
 		} else {
 			// The call returns only when the client answers; report the outcome of the *write*:
 			// a rejected write makes CreateMessage return at once.
@@ -1762,7 +1817,7 @@ func (g *rzGen) do(op string, tags ...string) string {
 			}
 		}
 	}
-	if toks[0] == "getp" && g.h.lastNote != "" {
+	if (toks[0] == "getp" || strings.HasSuffix(op, " af=1")) && g.h.lastNote != "" {
 		tags = append(tags, g.h.lastNote)
 		g.h.lastNote = ""
 	}
@@ -2058,6 +2113,15 @@ func (g *rzGen) emit(s *rzGSess, r *rzGReq) {
 	if kind == "N" && g.prop == "C10" && !g.stateless && !s.newProto && g.prng != nil && g.prng.Intn(100) < 20 {
 		kind = "L" // ServerSession.Log to the handler's own session
 	}
+	if kind == "C" && !g.stateless && !s.newProto && g.prng != nil {
+		// other server->client requests: a ping (what keep-alive sends), roots/list
+		switch r := g.prng.Intn(100); {
+		case r < 45:
+			kind = "P"
+		case r < 60:
+			kind = "R"
+		}
+	}
 	if r.responded && flag == "c" && !g.idReuse {
 		// A straggler that still uses the context of a finished request is rejected by the server —
 		// unless the client has meanwhile reused that request id for a new request of the same session
@@ -2074,8 +2138,12 @@ func (g *rzGen) emit(s *rzGSess, r *rzGReq) {
 	if r.responded {
 		t += "-after-response"
 	}
-	obs := g.do(fmt.Sprintf("emit %s %d x%d %s %s %d", s.name, r.id, r.x, kind, flag, g.serial), t)
-	if kind == "C" && strings.HasSuffix(obs, "w=pending") {
+	af := ""
+	if g.prop == "C02" && g.store && !g.stateless && g.prng != nil && g.prng.Intn(100) < 15 {
+		af, t = " af=1", t+"-append-fails"
+	}
+	obs := g.do(fmt.Sprintf("emit %s %d x%d %s %s %d%s", s.name, r.id, r.x, kind, flag, g.serial, af), t)
+	if (kind == "C" || kind == "P" || kind == "R") && strings.HasSuffix(obs, "w=pending") {
 		s.calls = append(s.calls, tag)
 	}
 }
@@ -2309,6 +2377,11 @@ func (g *rzGen) stepStateful() {
 		if len(parked) > 0 {
 			q := parked[g.pick(len(parked))]
 			q.responded = true
+			if g.prop == "C02" && g.store && g.prng != nil && g.prng.Intn(100) < 30 {
+				// the event store fails to record this response (first / middle / last of a batch as it comes)
+				g.do(fmt.Sprintf("resp %s %d x%d af=1", s.name, q.id, q.x), "resp-append-fails")
+				return
+			}
 			g.do(fmt.Sprintf("resp %s %d x%d", s.name, q.id, q.x))
 			return
 		}
@@ -2475,7 +2548,7 @@ func rzGenCase(t *testing.T, out *verifOut, c int, prop string) (cuts, resumes, 
 			// cuts, and ids from a small pool reused after completion
 			g.stateless = false
 			g.jsonMode = r%4 == 0
-			g.store = r%5 == 0
+			g.store = r%5 == 0 || r%7 == 3
 			g.maxSess = 1 + rng.Intn(2)
 		} else if prop == "C10" {
 			g.stateless = r%4 == 0
@@ -2569,6 +2642,12 @@ func rzReplayFile(t *testing.T, out *verifOut, path, cs string) {
 			continue
 		}
 		ops = append(ops, ln)
+	}
+	if cs != "replay" && strings.Contains(string(b), " af=1") && os.Getenv("VERIF_PROPERTY") != "C02" {
+		// a failing EventStore.Append is outside C08 (which assumes the store meets its contract: the ids of everything
+		// after an unstored message are off by one — Lean: `append_failure_breaks_alignment`) and outside C10's
+		// "response neither delivered nor stored" check: such corpus cases run under C02 only
+		return
 	}
 	rzRunCase(t, out, cs, ops, func(op, obs string) []string { return []string{"corpus", strings.Fields(op)[0]} })
 	rzFlush(out)
